@@ -267,6 +267,7 @@ func runC10(c *Ctx, r *Report) {
 		r.check(ok && n > 0, "C10-R3-exact-consumption", "decodeFileData/exit", c.pos(fn.Pos()), "record loop succeeds only through n >= limit (and fill caps n <= limit)", "decodeFileData can return success while n < limit: the frame is not consumed exactly")
 	}
 
+	readFullExact(c, r, "C10-R2-exact-read")
 	// ---- R4: chaining and shared decode ------------------------------------------------------------------
 	if fn := c.ssaFn(c.fn(c.fit, "DecodeChained")); fn != nil {
 		ok := false
